@@ -1,11 +1,43 @@
 // ===== prelude/handles.rs — TRUSTED BASE: structural shims of fjall's handle types (fields only) =====
 // Keyspace = Arc<KeyspaceInner> with Deref, Supervisor = Arc<SupervisorInner> with Deref, Database = Arc<DatabaseInner>:
 // field access through Deref is modelled as direct field access. Only the fields the units read are declared.
-pub struct KsConfig { pub manual_journal_persist: bool, pub max_memtable_size: u64 }
+pub struct KsConfig { pub manual_journal_persist: bool, pub max_memtable_size: u64, pub compaction_strategy: CompactionStrategyHandle }
 pub struct SnapshotTracker { pub dummy: u8 }
 pub struct Supervisor {
     pub journal: Journal, pub seqno: SequenceNumberCounter, pub snapshot_tracker: SnapshotTracker,
     pub write_buffer_size: WriteBufferManager, pub keyspaces: KeyspacesLock,
+    pub flush_manager: FlushManager, pub journal_manager: JmLock,
+}
+// ---- flush queue / worker channel: no modelled state (liveness only)
+pub struct FlushManager { pub dummy: u8 }
+pub struct FlushTask { pub keyspace: Keyspace }
+pub struct Arc<T> { pub t: T }
+impl<T> Arc<T> { pub fn new(t: T) -> (r: Arc<T>) ensures r.t == t { Arc { t } } }
+impl FlushManager {
+    #[verifier::external_body] pub fn enqueue(&self, t: Arc<FlushTask>) { unimplemented!() }
+}
+pub enum WorkerMessage { Flush, Compact(Keyspace), RotateMemtable(Keyspace, u64), Close }
+pub struct SendResult { pub dummy: u8 }
+impl SendResult { #[verifier::external_body] pub fn ok(self) -> (r: Option<()>) { unimplemented!() } }
+pub struct WorkerSender { pub dummy: u8 }
+impl WorkerSender {
+    #[verifier::external_body] pub fn send(&self, m: WorkerMessage) -> (r: SendResult) { unimplemented!() }
+    #[verifier::external_body] pub fn try_send(&self, m: WorkerMessage) -> (r: SendResult) { unimplemented!() }
+}
+// ---- RwLock<JournalManager>: the lock invariant is JournalManager::wf (its queue IS w.sealed, proved in U-JMGR);
+// the guard exposes the manager's operations with their world-level contracts (abstraction of fn/jmgr_*.c)
+pub struct JmLock { pub dummy: u8 }
+pub struct JmLockResult { pub dummy: u8 }
+pub struct JmWriteGuard { pub dummy: u8 }
+impl JmLock { #[verifier::external_body] pub fn write(&self) -> (r: JmLockResult) { unimplemented!() } }
+impl JmLockResult { #[verifier::external_body] pub fn expect(self, msg: &str) -> (r: JmWriteGuard) { unimplemented!() } }
+impl JmWriteGuard {
+    #[verifier::external_body]
+    pub fn maintenance(&mut self, Tracked(w): Tracked<&mut World>) -> (r: Result<(), Error>)
+        ensures exists|k: int| 0 <= k <= old(w).sealed.len() && #[trigger] old(w).sealed.skip(k) == final(w).sealed
+                    && final(w).removed == old(w).removed + Seq::new(k as nat, |i: int| old(w).sealed[i].path),
+                *final(w) == (World { sealed: final(w).sealed, removed: final(w).removed, ..*old(w) }),
+    { unimplemented!() }
 }
 pub struct Database { pub supervisor: Supervisor, pub is_poisoned: PoisonSignal }
 impl Clone for Keyspace {
@@ -16,6 +48,10 @@ impl Clone for Keyspace {
 pub struct Keyspace {
     pub id: InternalKeyspaceId, pub tree: AnyTree, pub supervisor: Supervisor,
     pub is_poisoned: PoisonSignal, pub is_deleted: AtomicBool, pub config: KsConfig,
+    pub worker_messager: WorkerSender,
+}
+impl Keyspace {
+    #[verifier::external_body] pub fn path(&self) -> (r: &PathBuf) { unimplemented!() }
 }
 /// the handle is consistent with the world: same tree identity, the DATABASE's poison flag (C13: one flag per
 /// instance, established by Keyspace::from_database / create_new in U-META), its persist mode is the tree's
